@@ -24,7 +24,17 @@ def main():
     ctx = core.Ctx(pid, tier=tier, seed=seed, selftest=a.selftest, replay=a.replay)
     try:
         mod = importlib.import_module("harness.props.%s" % pid.lower())
-        mod.run(ctx)
+        if a.replay:
+            import json
+            rec = json.load(open(a.replay))
+            if not hasattr(mod, "replay"):
+                raise core.MachineryError("replay not implemented for %s" % pid)
+            ctx.tier = "quick"
+            mod.replay(ctx, rec)
+            ctx.states = max(ctx.states, 1)
+            ctx.transitions = max(ctx.transitions, 1)
+        else:
+            mod.run(ctx)
         rc = ctx.finish()
     except core.MachineryError as ex:
         print("MACHINERY-FAILURE property=%s: %s" % (pid, ex), file=sys.stderr)
